@@ -154,12 +154,12 @@ class DBFSStore(Store):
         from .pandas import PandasFileCodec
 
         slfc = StringLocalFileCodec()
-        plfc = BytesFileCodec()
-        bfc = PickleLocalFileCodec()
+        bfc = BytesFileCodec()
+        plfc = PickleLocalFileCodec()
 
         self._registry = CodecRegistry(
             [PySparkDatabricksCodec()],
-            [slfc, plfc, bfc, PandasFileCodec()],
+            [slfc, bfc, plfc, PandasFileCodec()],
         )
         # Deprecation hack
         # To ensure that older data already written can still be read, add the following compatibility routines:
